@@ -218,7 +218,7 @@ def main(run: Run):
                         "the induction over arbitrary tree shapes is argued in DESIGN.md (each node's clause is the induction step), not mechanised; "
                         "tree shapes are enumerated/seeded (bounded)"]
     run.functions["composition: csr.Decoder / csr.Bridge / csr.Multiplexer / csr.EventMonitor / gpio.Peripheral / wishbone.Decoder / WishboneSRAM / WishboneCSRBridge (flattened)"] = "per generated hierarchy (bounded in shapes), all root addresses and all inputs"
-    run_configs(run, __name__, cfgs, cosim_cycles=8, must_accept=True)      # the generators only produce hierarchies that fit
+    run_configs(run, __name__, cfgs, cosim_cycles=8, must_accept=lambda cfg: bool(cfg.get('directed')))
     from . import patterns_l1
     patterns_l1.add_to(run)
     from . import validation
